@@ -81,6 +81,7 @@ class TelegramQueue:
         "_consumer_task",
         "_data_secure_group_key_issue_cbs",
         "_rate_limiter",
+        "_stop_requested",
         "outgoing_queue",
         "telegram_received_cbs",
         "xknx",
@@ -95,6 +96,7 @@ class TelegramQueue:
         self.outgoing_queue: asyncio.Queue[Telegram | None] = asyncio.Queue()
         self._consumer_task: Awaitable[tuple[None, None]] | None = None
         self._rate_limiter: asyncio.Task[None] | None = None
+        self._stop_requested = False
 
     def register_telegram_received_cb(
         self,
@@ -121,6 +123,7 @@ class TelegramQueue:
 
     async def start(self) -> None:
         """Start telegram queue."""
+        self._stop_requested = False
         self._consumer_task = asyncio.gather(
             self._telegram_consumer(), self._outgoing_rate_limiter()
         )
@@ -132,8 +135,11 @@ class TelegramQueue:
             # not running - a stop marker left in the queue would end the
             # consumer right after the next start
             return
-        # If a None object is pushed to the queue, the queue stops
-        self.xknx.telegrams.put_nowait(None)
+        if not self._stop_requested:
+            # one marker per run - also for overlapping stop() calls
+            self._stop_requested = True
+            # If a None object is pushed to the queue, the queue stops
+            self.xknx.telegrams.put_nowait(None)
         await self._consumer_task
 
     async def _telegram_consumer(self) -> None:
